@@ -47,6 +47,16 @@ def build_decls(rng, subs, n_containers=None, n_plates=None):
                 init.append((s, f'{10 ** rng.uniform(-2, 2.9):.3g} {rng.choice(["ng", "ng", "ug", "nmol"])}'))
             else:
                 init.append((s, f'{rng.randint(1, 40) * 50} mg'))
+        # (round 17) one container in seven lists a solid it holds nothing of ('0 mg' of the salt: a bottle declared that way, or
+        # emptied and refilled): present by name, absent by amount. Drawn from a generator of its own, so that the programs of
+        # the earlier rounds keep their requests.
+        import random as _random
+        aux = _random.Random(f'zero-entry:{i}:{init!r}')
+        spare = [s for s in subs if not s.is_liquid() and s not in chosen]
+        if spare and aux.random() < 0.15:
+            z = aux.choice(spare)
+            init.insert(aux.randint(0, len(init)), (z, '0 U' if z.is_enzyme() else aux.choice(['0 mg', '0 mol', '0 umol'])))
+            M.bucket('recipe/decl/zero_entry')
         cap = rng.choice([None, None, f'{rng.randint(400, 900)} mL'])
         name = f'c{i}'
         if i == 0 and rng.random() < 0.2:
@@ -572,8 +582,13 @@ def gen_program(rng, case, focus=None, allow_infeasible=True):
             if kind == 'solution':
                 st = {'op': 'solution', 'name': f's{created}', 'solutes': solute, 'solvent': rng.choice([l for l in liqs if l != solute]), 'kw': kw}
             else:
+                # (a solvent container that lists the solute with an amount of zero is as good as one that does not list it)
                 cands = [n for n in C if any(s.is_liquid() and a > 0 for s, a in cur[n].contents.items())
-                         and solute not in cur[n].contents]
+                         and not cur[n].contents.get(solute, 0)]
+                zero_listed = [n for n in cands if solute in cur[n].contents]
+                if zero_listed:
+                    cands = zero_listed
+                    M.bucket('recipe/solution/solvent_container_lists_the_solute_with_zero')
                 if cands:
                     st = {'op': 'solution', 'name': f's{created}', 'solutes': [solute], 'solvent': rng.choice(cands), 'kw': kw}
         elif kind == 'solution_from' and C:
@@ -1528,24 +1543,47 @@ def fill_addresses_wrong(text, pl_, b4, af, solv):
     from . import instr as I
     rown, coln = list(pl_.row_names), list(pl_.column_names)
 
+    class Ambiguous(Exception):
+        pass
+    glued_ok = len({f'{r_}{c_}' for r_ in rown for c_ in coln}) == len(rown) * len(coln)
+
     def cell_(tok_):
-        for rn in sorted(rown, key=len, reverse=True):
-            if tok_.startswith(rn) and tok_[len(rn):] in coln:
-                return rown.index(rn), coln.index(tok_[len(rn):])
+        # every (row, column) whose labels, written side by side, give this token: more than one and the text does not say
+        # which well is meant (round 17: rows and columns both labelled 1..12 - '111' is 1:11 and 11:1)
+        fits = [(i_, j_) for i_, rn in enumerate(rown) for j_, cn_ in enumerate(coln) if tok_ == f'{rn}{cn_}']
+        if len(fits) > 1:
+            raise Ambiguous(tok_)
+        if fits:
+            return fits[0]
         raise KeyError(tok_)
+
+    def colon_cell(tok_):
+        rn, _, cn_ = tok_.partition(':')
+        return rown.index(rn), coln.index(cn_)
     named = {}
     for m_ in _re.finditer(r"([-+0-9.eE]+)\s+(\S+)\s+to\s+\[(.*?)\]", text):
         cells = set()
         try:
             for part in m_.group(3).split(','):
                 part = part.strip()
-                if ':' in part:
-                    (r1, c1), (r2, c2) = (cell_(x_) for x_ in part.split(':'))
+                if glued_ok or ':' not in part:
+                    corners = [cell_(x_) for x_ in part.split(':')]
+                else:
+                    # labels that glue alike: a well is written 'row:column', a run 'first - last'
+                    corners = [colon_cell(x_.strip()) for x_ in part.split(' - ')]
+                if len(corners) == 2:
+                    (r1, c1), (r2, c2) = corners
                     for i_ in range(min(r1, r2), max(r1, r2) + 1):
                         for j_ in range(min(c1, c2), max(c1, c2) + 1):
                             cells.add((i_, j_))
+                elif len(corners) == 1:
+                    cells.add(corners[0])
                 else:
-                    cells.add(cell_(part))
+                    raise KeyError(part)
+        except Ambiguous:
+            M.count('INSTR.recipe_fill_addresses')
+            M.bucket('C19/recipe/fill_addresses/ambiguous_name')
+            return True
         except Exception:   # noqa
             M.count('INSTR.recipe_fill_addresses_unreadable')
             return False
@@ -1585,7 +1623,12 @@ def fill_pattern_cases(rng, case, idx):
         for n_, (sub_, alt_) in enumerate([(x_, a_) for x_ in subsets for a_ in ((0, 5) if len(x_) == 3 else (0,))]):
             if n_ % parts != part:
                 continue
-            plate = pp.Plate('assay', '200 uL', rows=3, columns=4)
+            # (round 17: every seventh pattern on a plate whose row and column labels glue alike - '1', '11', '111' both ways)
+            digits = n_ % 7 == 3
+            plate = pp.Plate('assay', '200 uL', rows=['1', '11', '111'], columns=['1', '11', '111', '2']) if digits \
+                else pp.Plate('assay', '200 uL', rows=3, columns=4)
+            if digits:
+                M.bucket('C19/recipe/fill_addresses/labels_that_glue_alike')
             src = pp.Container('src', initial_contents=[(water, '1 mL')])
             with M.oracle():
                 for k_, (i, j) in enumerate(sub_):
